@@ -38,7 +38,7 @@ def search(S):
         S.check("sim.measure_mag", "model", inp, H.close(ym, R.T @ Bn, 1e-9) and abs(np.linalg.norm(ym) - ms) < 1e-9, (R.T @ Bn).tolist(), ym.tolist(), "magnetometer reading is not C_nb^T Rz(decl) Ry(-incl) e1 * strength")
         S.check("sim.measure_gyro", "model", inp, H.close(yg, om + x[3:6]), None, yg.tolist(), "gyro reading is not rate + bias")
     # ---- closed loop
-    runs = max(2, S.budget // 70)
+    runs = max(3, S.budget // 70)
     for k in range(runs):
         initialize = bool(k % 2 == 0)
         ax, ang = L.rand_rot(rng)
@@ -54,9 +54,13 @@ def search(S):
         if k % 4 == 3:
             decl = 0.0
         params = {"sim/enable_noise": False, "sim/mag_decl": decl, "sim/mag_incl": incl, "mrp/mag_decl": decl}
-        if k % 3 == 2 or k == 1:
+        if (k % 3 == 2 and k != 2) or k == 1:
             # corrections rate-limited below the sensor rates: 25 Hz magnetometer, accelerometer corrections at 50 Hz on a 200 Hz IMU
             params.update({"sim/dt_mag": 1.0 / 25, "mrp/dt_min_mag": 1.0 / 25, "mrp/dt_min_accel": 1.0 / 50, "logger/dt": 1.0 / 100})
+        elif k == 2 or (k % 4 == 0 and k > 0):
+            # estimator-side minimum periods LONGER than the sensor periods (50 Hz magnetometer used every third message,
+            # accelerometer corrections at 40 Hz on the 200 Hz IMU): corrections must still be applied, just less often
+            params.update({"mrp/dt_min_mag": 1.0 / 20, "mrp/dt_min_accel": 1.0 / 40})
         inp = {"x0": x0.tolist(), "initialize": initialize, "params": {a: (float(b) if not isinstance(b, bool) else b) for a, b in params.items()}, "tf": 20}
         sink = io.StringIO()
         try:
@@ -93,4 +97,4 @@ def search(S):
         S.check("launch_sim", "corrections_accepted", inp, bool(np.nanmean(ret[-200:] == 0) > 0.9), "> 90% accepted late in the run", float(np.nanmean(ret[-200:] == 0)), "accelerometer corrections keep being rejected")
 
 
-H.run(search, "sensor models on random attitudes with declination/inclination both zero, one zero, both non-zero; closed-loop runs of 20 simulated seconds, noise off, with and without initialisation, random true attitude (up to 2.5 rad with init; without init the estimate starts at zero with errors up to 3.0 rad, half of them mostly in yaw), biases in +-0.05 rad/s, inclination in +-1.1, declination in +-0.4, two rate settings; distinct = distinct (unit, input)")
+H.run(search, "sensor models on random attitudes with declination/inclination both zero, one zero, both non-zero; closed-loop runs of 20 simulated seconds, noise off, with and without initialisation, random true attitude (up to 2.5 rad with init; without init the estimate starts at zero with errors up to 3.0 rad, half of them mostly in yaw), biases in +-0.05 rad/s, inclination in +-1.1, declination in +-0.4, three rate settings (defaults; corrections limited to the sensor period at 25 Hz mag / 50 Hz accel; estimator minimum periods longer than the sensor periods); distinct = distinct (unit, input)")
